@@ -132,7 +132,7 @@ pub struct Limits {
 
 impl Default for Limits {
     fn default() -> Self {
-        Limits { compile: Duration::from_secs(20), run: Duration::from_secs(5) }
+        Limits { compile: Duration::from_secs(180), run: Duration::from_secs(30) }
     }
 }
 
